@@ -94,8 +94,8 @@ def search(chk, line, impl_line, model_line, budget):
 
 def run(chk, failed):
     thorough = chk.thorough
-    n_ring = 1800 if not thorough else 60000
-    n_gen = 240 if not thorough else 6000
+    n_ring = 3000 if not thorough else 60000
+    n_gen = 300 if not thorough else 6000
     lines, kinds = [], []
     for ln in C.read_corpus(chk.pid):
         lines.append(ln)
